@@ -1,5 +1,5 @@
 From Coq Require Import Extraction ExtrOcamlBasic.
-From PV Require Import Lib.ExtractBase Model.Iterator Model.Scenario Model.MapPath Model.Templater.
+From PV Require Import Lib.ExtractBase Model.Iterator Model.Scenario Model.MapPath Model.Templater Model.CsvSource.
 Extraction Language OCaml.
 Extraction "extracted/C15_model.ml" xb_types
   parse_shoot print_bare print_n print_ns
@@ -8,4 +8,5 @@ Extraction "extracted/C15_model.ml" xb_types
   build run_shots src_wf c_shoot c_send_ids c_sample_obs c_step_obs order_stop_b visible weights_ok_b items_of ammo_minwait min_wait_sleep
   it_run next_row merge_of_b count_seg
   run_paths run_paths_bare spec_paths canon_of
-  run_applies spec_applies.
+  run_applies spec_applies
+  read_csv csv_spec print_csv.
